@@ -5,7 +5,7 @@
 //!   logistic/monotone         x < y  =>  logistic(x) <= logistic(y)   (f32 neighbours, random pairs)
 //!   logistic/reflection       |logistic(−x) − (1 − logistic(x))| <= 8ε
 //!   logistic/logit-roundtrip  |logistic(logit(p)) − p| <= 8ε on [0,1] (logit must not panic there);
-//!                             |logit(logistic(x)) − x| <= 8ε(2 + e^|x|) + 2ε|x| for |x| <= 30
+//!                             |logit(logistic(x)) − x| <= 8ε(2 + e^x) + 2ε|x| for −700 <= x <= 30
 //!   logit/rejects-outside     logit(p) panics for p < 0, p > 1, NaN
 //!   softmax/finite, /sum, /order, /shift, /value   (see the check functions)
 //!   boxcox/value, boxcox/rejects, boxcox_shifted/value, boxcox_shifted/rejects
@@ -81,8 +81,7 @@ fn f_logistic_reflection(x: f64, _: f64) -> Option<Pt> {
 
 /// y = 0: x is p in [0,1], check logistic(logit(p)) = p. logit's absolute error δ <= (1.5 + |logit p|)·ε/2
 /// moves logistic by p(1−p)δ <= 0.25·ε; plus logistic's own 2ε·p: < 2.5ε a priori; bound 8ε (absolute).
-/// y = 1: |x| <= 30, check logit(logistic(x)) = x. logistic's absolute error 2ε·L is amplified by
-/// 1/(L(1−L)) = 2 + e^x + e^-x, logit adds (1.5 + |x|)ε/2: bound 8ε(2 + e^|x|) + 2ε|x|.
+/// y = 1: −700 <= x <= 30, check logit(logistic(x)) = x: bound 8ε(2 + e^x) + 2ε|x| (derivation at the check).
 fn f_logit_roundtrip(x: f64, y: f64) -> Option<Pt> {
     if y == 0.0 {
         let p = x;
@@ -105,7 +104,11 @@ fn f_logit_roundtrip(x: f64, y: f64) -> Option<Pt> {
         let r = if d.is_nan() { f64::INFINITY } else { d / (8.0 * EPS) };
         Pt::judge(class, r, || format!("logit({:e}) = {:e}, logistic of that = {:e}: off by {:.3e} > 8ε", p, l, back, d))
     } else if y == 1.0 {
-        if !(x.abs() <= 30.0) {
+        // upper end 30: beyond it 1 − logistic(x) has no significant bits left; lower end −700: there
+        // logistic(x) ≈ e^x is a tiny but normal number carrying its full relative precision, so the logit
+        // must recover x (a formula that is only *absolutely* accurate near 0 — e.g. 0.5 + 0.5·tanh(x/2) —
+        // is not inverted by the logit in the lower tail)
+        if !(x >= -700.0 && x <= 30.0) {
             return None;
         }
         let p = logistic(x);
@@ -113,7 +116,9 @@ fn f_logit_roundtrip(x: f64, y: f64) -> Option<Pt> {
             Ok(l) => l,
             Err(msg) => return Pt::bad("x -> logistic -> logit", f64::NAN, format!("logit(logistic({:e}) = {:e}) panicked: {}", x, p, msg)),
         };
-        let tol = 8.0 * EPS * (2.0 + x.abs().exp()) + 2.0 * EPS * x.abs();
+        // logistic's error 2ε·L (relative) is amplified by 1/(L(1−L)) = 2 + e^x + e^-x: 2ε(1 + e^x)·(slack 4),
+        // logit adds (1.5 + |x|)ε/2
+        let tol = 8.0 * EPS * (2.0 + x.exp()) + 2.0 * EPS * x.abs();
         let d = (back - x).abs();
         let r = if d.is_nan() { f64::INFINITY } else { d / tol };
         Pt::judge("x -> logistic -> logit", r, || format!("logistic({:e}) = {:e}, logit of that = {:e}: off by {:.3e} > {:.3e}", x, p, back, d, tol))
